@@ -250,6 +250,18 @@ def rules(ck, P):
                  "the block index named by the header is read and decoded unconditionally, with `?`, before the reader is returned",
                  "the block index is not decoded unconditionally before Ok", ir.loc(b))
 
+    # the crash argument starts from an EMPTY file: whatever opens the output must create or truncate it, so that bytes of an older
+    # container at the same path cannot complete an unfinished new one
+    fp = [x for x in P.bodies if x["q"].endswith("data_writer_file::DataWriterFile::from_path")]
+    if ck.anchor("R-COMMIT-ORDER", "DataWriterFile::from_path", fp, 1):
+        b = fp[0]
+        create = ir.contains(b["body"], lambda y: y.get("k") == "call" and (y.get("q") or "") in ("std::fs::File::create", "std::fs::File::create_new"))
+        opts = [y for y in ir.walk_nodes(b["body"]) if y.get("k") == "mcall" and "OpenOptions" in (y.get("q") or "")]
+        trunc = any(y["name"] in ("truncate", "create_new") and y.get("a") and (ir.strip(y["a"][0]).get("v") in (True, "true") or ir.const_eval(y["a"][0], {}) in (1, True)) for y in opts)
+        opens = [y for y in ir.walk_nodes(b["body"]) if (y.get("k") == "call" and (y.get("q") or "").startswith("std::fs::File::")) or (y.get("k") == "mcall" and "OpenOptions::open" in (y.get("q") or ""))]
+        ck.check((create or trunc) and bool(opens), "R-COMMIT-ORDER", b["q"] + "|fresh-file", "the output file is created empty (File::create / truncate(true) / create_new(true))",
+                 "the output file is opened without truncation (%s): an interrupted rewrite leaves the previous container's header and directories in place over partly replaced tile data" %
+                 sorted({y.get("name") or (y.get("q") or "").rsplit("::", 1)[-1] for y in opts + opens}), ir.loc(b))
     # a torn header write leaves a prefix of the new header over zeros: the fields at its end (zoom range, bounds, centre) can still be
     # zero while magic, ranges and compression are already final.  Tile lookups must therefore not trust those trailing fields to
     # decide whether a tile exists.
